@@ -76,6 +76,12 @@ ClearlyIllegal(s) ==
 RECURSIVE RefList(_, _)
 RefList(t, i) == i + 1 <= Len(t) /\ t[i] = "ref" /\ ((t[i + 1] = "rp" /\ i + 1 = Len(t)) \/ (t[i + 1] = "cm" /\ RefList(t, i + 2)))
 ClearlyLegalSimple(s) == LET t == Lex(s, 1) IN Len(t) >= 4 /\ t[1] = "name" /\ t[2] = "lp" /\ RefList(t, 3)
+\* name ( $ref ) ( $ref ) ... : the head of an application may itself be an application (intent := ... | intent '(' args ')');
+\* a chain of two or more one-argument applications of a name is as clearly legal as name(args) - and owed the same
+ClearlyLegalChain(s) ==
+  LET t == Lex(s, 1) IN
+    /\ Len(t) >= 7 /\ (Len(t) - 1) % 3 = 0 /\ t[1] = "name"
+    /\ \A j \in 0..((Len(t) - 1) \div 3 - 1) : t[2 + 3 * j] = "lp" /\ t[3 + 3 * j] = "ref" /\ t[4 + 3 * j] = "rp"
 
 (***************************************************************************)
 (* Which arg a reference reaches (find_arg): the search goes down from the *)
@@ -86,6 +92,12 @@ ClearlyLegalSimple(s) == LET t == Lex(s, 1) IN Len(t) >= 4 /\ t[1] = "name" /\ t
 Placements == {"child", "below-plain", "below-other-arg", "below-other-intent", "absent"}
 InScope(p) == p \in {"child", "below-plain"}
 
+\* (chains are longer than the bound of the exhaustive configurations: the class is checked against the grammar on examples, at start-up)
+Link == <<"lp", "dl", "ns", "rp">>
+ChainExamples == {<<"ns">> \o Link \o Link, <<"ns", "ns">> \o Link \o Link \o Link, <<"ns">> \o Link \o Link \o Link \o Link}
+ASSUME \A s \in ChainExamples : ClearlyLegalChain(s) /\ Legal(s, TRUE) /\ Legal(s, FALSE) /\ ~ClearlyIllegal(s) /\ ~ClearlyLegalSimple(s)
+ASSUME ~ClearlyLegalChain(<<"ns">> \o Link) /\ ~ClearlyLegalChain(<<"ns", "lp", "dl", "ns", "cm", "dl", "ns", "rp">> \o Link) /\ ~ClearlyLegalChain(<<"dl", "ns">> \o Link \o Link)
+
 CONSTANTS MaxLen
 VARIABLES str
 Init == str = <<>>
@@ -93,6 +105,7 @@ Next == Len(str) < MaxLen /\ \E c \in Classes : str' = Append(str, c)
 Spec == Init /\ [][Next]_str
 \* design: the classes are consistent with the grammar under both readings
 IllegalIsIllegal == ClearlyIllegal(str) => ~Legal(str, TRUE) /\ ~Legal(str, FALSE)
+ChainIsLegal == ClearlyLegalChain(str) => Legal(str, TRUE) /\ Legal(str, FALSE) /\ ~ClearlyIllegal(str) /\ ~ClearlyLegalSimple(str)
 SimpleIsLegal == ClearlyLegalSimple(str) => Legal(str, TRUE) /\ Legal(str, FALSE) /\ ~ClearlyIllegal(str)
 ReadingsDifferOnlyOnEmptyArgs == (Legal(str, TRUE) # Legal(str, FALSE)) =>
     \E i \in 1..(Len(NoSp(str)) - 1) : NoSp(str)[i] = "lp" /\ NoSp(str)[i + 1] = "rp"
